@@ -87,6 +87,10 @@ Left(x, n)  == IF n < 0 THEN ValueErr ELSE T(Slice(x, 1, n))
 \* RIGHT(x, k): the last k characters; k < 0 -> #VALUE!
 Right(x, k) == IF k < 0 THEN ValueErr ELSE T(Slice(x, Len(x) - k + 1, Len(x)))
 
+\* LEFT(x) and RIGHT(x): the count defaults to 1
+LeftDefault(x)  == Left(x, 1)
+RightDefault(x) == Right(x, 1)
+
 \* MID(x, p, c): c characters from position p; c < 0 -> #VALUE!.
 \* A start below 1 is an error in Excel too, but the statement only speaks of
 \* negative counts: left unjudged.
@@ -111,6 +115,7 @@ SetMin(S) == CHOOSE m \in S : \A o \in S : m <= o
 \*  - the empty text sought from start = LEN+1: the statement's reading
 \*    (MID(x, LEN+1, 0) = "") gives LEN+1, Excel's documentation gives #VALUE!
 \*    (start beyond the text): both allowed.
+\* FIND(f, x) is FIND(f, x, 1).
 FindAllowed(f, x, start) ==
   IF start < 1 THEN {Unjudged}
   ELSE LET P == {p \in Matches(f, x) : p >= start}
